@@ -1,6 +1,7 @@
 package main
 
 import (
+	"berty.tech/go-orbit-db/address"
 	"context"
 	"encoding/hex"
 	"encoding/json"
@@ -32,6 +33,7 @@ type AuthInput struct {
 }
 
 type authEnv struct {
+	decoy            string // address of another database the replica opens first with the same options value ("" = fresh options)
 	w                *sim.World
 	w1, w2, r, x     *sim.Node
 	rw1, rw2, rr, rx *sim.StoreRef
@@ -81,13 +83,36 @@ func newAuthEnv(tag, list, stype string) (*authEnv, error) {
 	if a.rw2, err = a.w2.Open(a.addr, realType(stype), nil); err != nil {
 		return nil, err
 	}
-	if a.rr, err = a.r.Open(a.addr, realType(stype), nil); err != nil {
+	if authReuseOptions {
+		// the application on replica r keeps one options value for every database it opens, and opens another
+		// database (anyone may write there) before the one under test
+		dx, err := a.x.Open("decoy-"+tag, realType(stype), &orbitdb.CreateDBOptions{AccessController: sim.AccessFor([]string{"*"})})
+		if err != nil {
+			return nil, err
+		}
+		a.decoy = dx.Addr
+	}
+	if a.rr, err = a.openReplica(a.r); err != nil {
 		return nil, err
 	}
 	if a.rx, err = a.x.Open(a.addr, realType(stype), nil); err != nil {
 		return nil, err
 	}
 	return a, nil
+}
+
+// authReuseOptions: set by the driver for every second case.
+var authReuseOptions bool
+
+func (a *authEnv) openReplica(n *sim.Node) (*sim.StoreRef, error) {
+	if a.decoy == "" {
+		return n.Open(a.addr, realType(a.stype), nil)
+	}
+	opts := &orbitdb.CreateDBOptions{}
+	if _, err := n.Open(a.decoy, realType(a.stype), opts); err != nil {
+		return nil, err
+	}
+	return n.Open(a.addr, realType(a.stype), opts)
 }
 
 func (a *authEnv) listed(n *sim.Node) bool {
@@ -112,7 +137,7 @@ func (a *authEnv) restartReplica() error {
 		return err
 	}
 	a.r = n
-	if a.rr, err = n.Open(a.addr, realType(a.stype), nil); err != nil {
+	if a.rr, err = a.openReplica(n); err != nil {
 		return err
 	}
 	return a.rr.S.Load(context.Background(), -1)
@@ -365,6 +390,7 @@ func authCmd(args []string) int {
 					viol := func(kind, detail string, exp, got interface{}) {
 						res.violate(Violation{Property: in.Property, Kind: kind, Behaviour: bid, Step: n, Detail: detail, Expected: exp, Got: got})
 					}
+					authReuseOptions = n%2 == 1
 					a, err := newAuthEnv(fmt.Sprintf("c%d", n), list, stype)
 					if err != nil {
 						res.Inconclusive = append(res.Inconclusive, bid+": setup: "+err.Error())
@@ -509,7 +535,10 @@ func authCmd(args []string) int {
 // C04: single-field mutations of the wire form of a valid entry
 
 var tamperFields = []string{"payload", "clock.time", "clock.id", "next", "refs", "key", "sig", "identity.id", "identity.publicKey",
-	"identity.signatures.id", "identity.signatures.publicKey", "identity.type", "id", "hash", "hash-alias", "v"}
+	"identity.signatures.id", "identity.signatures.publicKey", "identity.type", "id", "hash", "hash-alias", "v",
+	// not mutations: a genuine, correctly signed and addressed entry of the same writer for another database
+	// (an unrelated one, and one that shares the manifest and differs in the path only)
+	"foreign-db", "sibling-db"}
 
 func flip(b []byte) []byte {
 	o := append([]byte{}, b...)
@@ -577,6 +606,7 @@ func runTamper(in *AuthInput, res *Result) {
 				viol := func(kind, detail string) {
 					res.violate(Violation{Property: in.Property, Kind: kind, Behaviour: bid, Step: n, Detail: detail})
 				}
+				authReuseOptions = n%2 == 1
 				a, err := newAuthEnv(fmt.Sprintf("t%d", n), "explicit", stype)
 				if err != nil {
 					res.Inconclusive = append(res.Inconclusive, bid+": setup: "+err.Error())
@@ -611,6 +641,23 @@ func runTamper(in *AuthInput, res *Result) {
 						return
 					}
 					m := a.mutate(e2.(*entry.Entry), field, e0.GetHash(), otherDB.Addr)
+					if field == "foreign-db" || field == "sibling-db" {
+						target := otherDB.Addr
+						if field == "sibling-db" {
+							if pa, err := address.Parse(a.addr); err == nil {
+								target = "/orbitdb/" + pa.GetRoot().String() + "/sibling-of-" + pa.GetPath()
+							}
+						}
+						g, err := mkEntry(ctx, a.w1, a.w1.DB.Identity(), target, opPayload(stype, "tampered"), e2.GetNext(), e2.GetClock().GetTime())
+						if err != nil {
+							res.Inconclusive = append(res.Inconclusive, bid+": "+err.Error())
+							return
+						}
+						if raw, ok := a.w1.P.RawBlock(g.GetHash()); ok {
+							a.x.P.PutBlock(g.GetHash(), raw)
+						}
+						m = g
+					}
 					if pos != "head" {
 						if err := rehash(ctx, a.x, m); err != nil {
 							// cannot even be encoded: nothing to deliver
@@ -647,7 +694,7 @@ func runTamper(in *AuthInput, res *Result) {
 							}
 						}
 						if mustReject && !unchanged {
-							for _, le := range a.rr.S.OpLog().GetEntries().Slice() {
+							for _, le := range append(append(a.rr.S.OpLog().GetEntries().Slice(), a.rr.S.OpLog().Heads().Slice()...), a.rr.S.OpLog().Values().Slice()...) {
 								// the genuine entry may have been delivered meanwhile and share the claimed hash: compare content then
 								genuine := le.GetHash().Equals(e2.GetHash()) && string(le.GetPayload()) == string(e2.GetPayload()) && string(le.GetSig()) == string(e2.GetSig()) &&
 									le.GetLogID() == e2.GetLogID() && le.GetClock().GetTime() == e2.GetClock().GetTime() && string(le.GetKey()) == string(e2.GetKey())
@@ -674,12 +721,13 @@ func runTamper(in *AuthInput, res *Result) {
 					res.Comparisons++
 					res.Steps += 2
 					merged := false
-					for _, le := range a.rr.S.OpLog().GetEntries().Slice() {
+					held := append(append(a.rr.S.OpLog().GetEntries().Slice(), a.rr.S.OpLog().Heads().Slice()...), a.rr.S.OpLog().Values().Slice()...)
+					for _, le := range held {
 						if le.GetHash().Equals(m.Hash) || (realHash.Defined() && le.GetHash().Equals(realHash) && !unchanged) {
 							merged = true
 						}
 					}
-					if field == "payload" && visible(a.rr, stype, "tampered") {
+					if (field == "payload" || field == "foreign-db" || field == "sibling-db") && visible(a.rr, stype, "tampered") {
 						merged = true
 					}
 					cls := fmt.Sprintf("hashok=%v intact=%v samedb=%v", hashok, intact, samedb)
